@@ -76,7 +76,7 @@ func (n *Node) pendingApply() bool {
 // exec runs one operation; a panic that escapes the recorded calls (HasReady, the state dump,
 // a storage read of the harness) ends the schedule and is reported like any other panic.
 func (c *Cluster) exec(op string) {
-	if c.stopped {
+	if c.stopped || c.over() {
 		return
 	}
 	defer func() {
@@ -268,7 +268,7 @@ func (c *Cluster) execOp(op string) {
 
 // flush: up to n rounds of "process every node, deliver everything in flight"
 func (c *Cluster) flush(rounds int) {
-	for r := 0; r < rounds; r++ {
+	for r := 0; r < rounds && !c.over(); r++ {
 		busy := false
 		for _, n := range c.alive() {
 			if n.hasReady() || n.app.stage != 0 || len(n.app.appendQ) > 0 || len(n.app.applyQ) > 0 {
@@ -277,7 +277,7 @@ func (c *Cluster) flush(rounds int) {
 			}
 		}
 		k := len(c.net)
-		for i := 0; i < k && len(c.net) > 0; i++ {
+		for i := 0; i < k && len(c.net) > 0 && !c.over(); i++ {
 			busy = true
 			m := c.net[0]
 			if dst := c.nodes[m.GetTo()]; dst != nil && dst.alive && m.GetType() == pb.MsgSnap && c.envStrict && dst.pendingApply() {
